@@ -387,6 +387,69 @@ func checkC09(p *core.Program, r *core.Report) {
 			r.Errorf("lazy initialiser %s.%s not found or no longer writes its receiver: R3's premise changed", lt.typ, lt.m)
 		}
 	}
+	// ... and those are the only fields a method of these types writes into its receiver: a new memo field (sorted
+	// names kept after the first call) is a new write-on-first-read the eager constructors do not fill
+	{
+		lazyFields := map[string]map[string]string{
+			"excellent/types.XObject": {"props": "filled by ensureInitialized; the eager constructors fill it", "def": "set together with props by ensureInitialized; the eager constructors call it", "deprecated": "written by SetDeprecated only (R6)",
+				"marshalDefault": "!uncalled", "marshalDeprecated": "!uncalled"},
+			"excellent/types.XArray":  {"data": "filled by values(); the eager constructors fill it", "deprecated": "written by SetDeprecated only (R6)"},
+		}
+		nW := 0
+		for _, fn := range p.ModuleFunctions() {
+			if core.RelPkg(core.FuncPkgPath(fn)) != "excellent/types" || p.IsTestFile(fn.Pos()) || fn.Signature.Recv() == nil || len(fn.Params) == 0 {
+				continue
+			}
+			rn := recvNamed(fn)
+			if rn == nil || lazyFields[core.QualName(rn)] == nil {
+				continue
+			}
+			recv := ssa.Value(fn.Params[0])
+			core.EachInstr(fn, true, func(in_ *ssa.Function, in ssa.Instruction) {
+				st, ok := in.(*ssa.Store)
+				if !ok {
+					return
+				}
+				fa, ok := st.Addr.(*ssa.FieldAddr)
+				if !ok || (in_ == fn && fa.X != recv) {
+					return
+				}
+				owner, fld := ownerOfFieldAddr(fa)
+				if owner != core.QualName(rn) {
+					return
+				}
+				if in_ != fn {
+					// inside a function literal of the method: the receiver is captured
+					if _, isFV := core.StripConv(fa.X).(*ssa.UnOp); !isFV {
+						if _, isFV2 := fa.X.(*ssa.FreeVar); !isFV2 {
+							return
+						}
+					}
+				}
+				nW++
+				reason, known := lazyFields[owner][fld]
+				key := fmt.Sprintf("%s.%s<-%s/receiver-write", owner, fld, fn.Name())
+				if known && reason == "!uncalled" {
+					// an explicit setter: harmless as long as nothing in the library calls it (tests do)
+					nc := 0
+					for _, cs := range p.CallsTo(fn) {
+						if !p.IsTestFile(cs.Pos()) {
+							nc++
+						}
+					}
+					r.Check(nc == 0, "R3", key, p.Pos(st.Pos()), "explicit setter "+fn.Name()+" has no caller in the library", fmt.Sprintf("setter %s writes field %s of its receiver and is called from %d place(s) in the library: on a shared value that is a write every session can see", fn.Name(), fld, nc))
+					return
+				}
+				if known {
+					r.OK("R3", key, p.Pos(st.Pos()), reason)
+					return
+				}
+				r.Bad("R3", key, p.Pos(st.Pos()), fmt.Sprintf("method %s writes field %s of its receiver: values of %s are also package-level singletons every session shares (XObjectEmpty, the router tests' FalseResult, …), built by constructors that do not fill this field — the first sessions to call %s on one of them write it at the same time (data race)", fn.Name(), fld, owner, fn.Name()))
+			})
+		}
+		r.Count("lazy_type_receiver_writes", nW)
+		r.Require("lazy_type_receiver_writes", nW, 2)
+	}
 	nLazy, nGlobals := 0, 0
 	for _, pk := range p.Pkgs {
 		rel := core.RelPkg(pk.PkgPath)
